@@ -26,6 +26,9 @@ pub fn gen_float(rng: &mut Rng, sw: &Swarm) -> Op {
     let t = if rng.chance(1, 2) { "f" } else { "d" };
     let (a, b, d) = (slot(rng), slot(rng), slot(rng));
     let nm = |s: &str| format!("{}.{}", t, s);
+    if sw.macro_steps && !cfg!(miri) && !crate::gen::no_macro_steps() && rng.chance(1, 50) {
+        return Op::new(&nm("big")).a(a).b(b).dst(d).n(rng.below(5) as i64).m(rng.below(1 << 20) as i64).form(rng.below(2));
+    }
     match rng.below(40) {
         0..=5 => {
             let bits = small_bits(rng, sw).min(600);
@@ -103,7 +106,7 @@ pub fn gen_ratio(rng: &mut Rng, sw: &Swarm) -> Op {
     let t = if rng.chance(3, 5) { "r" } else { "x" };
     let (a, b, d) = (slot(rng), slot(rng), slot(rng));
     let nm = |s: &str| format!("{}.{}", t, s);
-    if sw.big && !cfg!(miri) && rng.chance(1, 40) {
+    if sw.macro_steps && !cfg!(miri) && !crate::gen::no_macro_steps() && rng.chance(1, 40) {
         return Op::new("rbig.reduce").a(a).b(b).c(slot(rng)).n(rng.below(10) as i64).m(rng.below(1 << 20) as i64).form(rng.below(3));
     }
     match rng.below(40) {
